@@ -162,7 +162,7 @@ def run_rule_history(seq) -> dict:
 # ------------------------------------------------------------------------ (A) LayerRule histories
 
 L_OPS = [("based_on",), ("layers_that",), ("are_named", "L1"), ("are_named", "L2"), ("are_named", ["L1", "L2"]),
-         ("are_named", "nope"), ("should",), ("should_only",), ("should_not",),
+         ("are_named", "nope"), ("are_named", "L3"), ("are_named", ["L2", "L3"]), ("should",), ("should_only",), ("should_not",),
          ("access_layers_that",), ("be_accessed_by_layers_that",), ("access_layers_except_layers_that",),
          ("be_accessed_by_layers_except_layers_that",), ("access_any_layer",), ("be_accessed_by_any_layer",)]
 L_IMPS = {"access_layers_that", "be_accessed_by_layers_that", "access_layers_except_layers_that",
@@ -171,7 +171,8 @@ L_ANYS = {"access_any_layer", "be_accessed_by_any_layer"}
 
 
 def _layer_arch():
-    return LayeredArchitecture().layer("L1").containing_modules(["r.a"]).layer("L2").containing_modules(["r.b"])
+    # L3 is opened last and never receives modules: an incomplete definition that only matters when a rule names it
+    return LayeredArchitecture().layer("L1").containing_modules(["r.a"]).layer("L2").containing_modules(["r.b"]).layer("L3")
 
 
 class LayerChainAutomaton:
@@ -202,6 +203,12 @@ class LayerChainAutomaton:
         elif k == "are_named":
             if op[1] == "nope":
                 self.bad.append("undefined-layer")
+            elif "L3" in (op[1] if isinstance(op[1], list) else [op[1]]):
+                self.bad.append("layer-without-modules")
+                if self.pos == "subject":
+                    self.subj = True
+                else:
+                    self.obj = True
             elif self.pos == "subject":
                 if isinstance(op[1], list) or self.subj:
                     self.bad.append("not-exactly-one-subject")
